@@ -128,6 +128,7 @@ def run_mps_history(case):
                 labs = list(B._labels)
                 rec['perm'] = [labs.index(l) for l in psi._B_labels]
                 psi.set_B(st['i'], B, form=st['form'])
+                rec['stored_is_arg'] = bool(psi._B[st['i']] is B)
             elif op == 'meas':
                 del gets[:]
                 psi.get_B = get_B
